@@ -130,6 +130,18 @@ def make_stream(entries, cuts, with_value=False):
     return NpDataclassStream(iter(make_chunks(entries, cuts, with_value)), dataclass=BedGraph if with_value else Interval)
 
 
+def make_encoded_stream(names, size, entries, cuts):
+    """the same chunks with the contig column ENCODED against the genome (what Genome.get_intervals(...).get_data() hands
+    out): a single EncodedArray of contig codes instead of text names.  None when a name is not in the genome."""
+    import bionumpy as bnp
+    from bionumpy.streams import NpDataclassStream
+    if any(e[0] not in names for e in entries):
+        return None
+    g = bnp.Genome.from_dict({n: size for n in names})
+    chunks = [g.get_intervals(c).get_data() for c in make_chunks(entries, cuts)]
+    return NpDataclassStream(iter(chunks), dataclass=type(chunks[0]) if chunks else bnp.datatypes.Interval)
+
+
 def make_genome(names, size, with_ignored, use_parent=False):
     import bionumpy as bnp
     g = bnp.Genome.from_dict({n: size for n in names})
@@ -272,6 +284,41 @@ def c_multistream_zip_rev(names, size, entries, cuts, ign, scratch):
     return ('positions', out)
 
 
+def c_multistream_zip_encoded(names, size, entries, cuts, ign, scratch):
+    from bionumpy.streams import MultiStream
+    from engine import observe
+    stream = make_encoded_stream(names, size, entries, cuts)
+    if stream is None or not entries:
+        return None
+    ms = MultiStream({n: size for n in names}, a=stream)
+    out = {}
+    for n, grp in zip(ms.sequence_names, ms.a):
+        out[n] = set()
+        if len(grp):
+            for c, s in zip(chrom_text(grp.chromosome), observe.column(grp.start)):
+                out[n].add(s if str(c) == n else ('misattributed', str(c), s))
+    return ('positions', out)
+
+
+def c_jaccard_first_encoded(names, size, entries, cuts, ign, scratch):
+    from bionumpy.arithmetics import jaccard
+    stream = make_encoded_stream(names, size, entries, cuts)
+    other = make_encoded_stream(names, size, _other(names, size), ())
+    if stream is None or not entries:
+        return None
+    return ('jaccard', float(jaccard({n: size for n in names}, stream, other)))
+
+
+def chrom_text(col):
+    """contig names of a column that is text or genome-encoded"""
+    from engine import observe
+    enc = getattr(col, 'encoding', None)
+    if enc is not None and hasattr(enc, 'get_labels'):
+        labels = list(enc.get_labels())
+        return [labels[int(i)] for i in np.atleast_1d(np.asarray(col.raw())).tolist()]
+    return [str(x) for x in observe.column(col)]
+
+
 def _other(names, size=None):
     # well-formed second dataset: the first half of every contig (so that intersection and union with the explored
     # dataset both change when one of its entries is dropped)
@@ -302,6 +349,8 @@ CONSUMERS = {
     'multistream_zip': (c_multistream_zip, False), 'multistream_zip_rev': (c_multistream_zip_rev, False),
     'jaccard_first': (c_jaccard_first, False), 'jaccard_second': (c_jaccard_second, False),
     'forbes_second': (c_forbes_second, False),
+    'multistream_zip_encoded_contig_column': (c_multistream_zip_encoded, False),
+    'jaccard_first_encoded_contig_column': (c_jaccard_first_encoded, False),
 }
 
 
